@@ -76,6 +76,14 @@ CLAIMED = {
             "Generated-input search; `dbtp v` at the start and end of every branch and after `end` must equal the model (intersection with the admitted variants, complement for the negated single atom, nothing for a negated && chain, restoration afterwards). Exploration.",
             "Three listed finding shapes (&& on one variable, negated && chain, elsif !nil? after is_a?) are avoided by 3/4 of the generator and kept alive by the rest; dependent probes inside such a branch are not examined further.",
             "DESIGN.md §4 C10"),
+    "C16": ("property-based testing (Hypothesis: generated class hierarchies with modules, visibility sections, reopening, namespaces, colliding names) against a reference model of Ruby method resolution and visibility",
+            "Generated-input search; each probe (instance call, class call, K.new arity) is judged by the Ruby MRO/visibility model: resolvable -> dbtp shows the resolved method's distinct literal type and no diagnostic; otherwise a diagnostic on the row. Exploration.",
+            "No Ruby interpreter is available: the reference is a deliberately small model of uncontroversial semantics (MRO, visibility with explicit receiver, new<->initialize).",
+            "DESIGN.md §4 C16"),
+    "C27": ("property-based testing (Hypothesis: C16's hierarchy generator x module wrapping x same-named decoys); metamorphic relation (namespacing and decoys leave per-probe output unchanged modulo qualifying prefix)",
+            "Generated-input search over (class group, wrapping in one or two modules, decoy placement); per-probe records, the remaining diagnostics and --extends output must agree with the top-level variant after stripping the prefix. Exploration.",
+            "The group is self-contained by construction.",
+            "DESIGN.md §4 C27"),
 }
 
 PENDING_REASON = "check not built yet in this round (planned in DESIGN.md §3.11); no claim is made"
